@@ -204,7 +204,7 @@ pub fn property() -> Property {
         assumptions: vec!["paths are compared component-wise (PathBuf semantics), NUL is not generated"],
         streams: vec![
             enumerated_stream("paths-enumerated", "all segment sequences with/without leading and trailing '/'", enumerate, check_path),
-            random_stream("paths-random", "random path-like and arbitrary strings", random_paths, |t| t.pick(20_000, 500_000), check_path),
+            random_stream("paths-random", "random path-like and arbitrary strings", random_paths, |t| t.pick(20_000, 3_000_000), check_path),
             enumerated_stream("depends", "patterns x paths x colon layouts", dep_enumerate, check_dep),
         ],
         selfcheck: m::selfcheck,
